@@ -1,4 +1,5 @@
 import Batteries.Tactic.Alias
+import GenlmModel.Proofs.AgendaM
 import GenlmModel.Proofs.Zn
 import GenlmModel.Proofs.Norm
 /-! # C08 — total weights are the least solution of the grammar equations -/
@@ -14,4 +15,10 @@ alias total_is_forgetful_derivation_sum := Genlm.ZN_forget
 alias naive_bottom_up_iterates := Genlm.bottom_up_step_is_ZN
 /-- Expectation semiring: second component = length-weighted derivation sum, per string -/
 alias expectation_lifting := Genlm.expectation_lifting
+/-- chaotic agenda iteration (any scheduler, no tolerance): old + pending = F(old) at every reachable state -/
+alias agenda_invariant := Genlm.agenda_invariant
+/-- … so at termination `old` is a fixed point of the grammar equations, below every pre-fixed point -/
+alias agenda_fixed_point := Genlm.agenda_fixed_point_of_empty
+alias agenda_least := Genlm.agenda_least
+alias agenda_below_kleene_chain := Genlm.agenda_le_ZN
 end Genlm.Props.C08
